@@ -38,11 +38,11 @@ def tok_class_index(name):
 
 
 class TokFault(Exception):
-    def __init__(self, kind, bare=False):
+    def __init__(self, kind, bare=False, text=None):
         if bare:
             super().__init__()          # an exception without a message (bare `assert`, `raise TimeoutError`, queue.Empty ...)
         else:
-            super().__init__(kind)
+            super().__init__(kind if text is None else text)
         self.kind = kind
 
 
@@ -54,8 +54,48 @@ class TokInterrupt(KeyboardInterrupt):
         self.kind = kind
 
 
+class TokExit(SystemExit):
+    """The injected fault as a SystemExit (a model calling sys.exit / a worker being told to stop)."""
+
+    def __init__(self, kind):
+        super().__init__(3)
+        self.kind = kind
+
+
+class TokStop(StopIteration):
+    """The injected fault as a StopIteration (a user callback driving an exhausted iterator with next()): an ordinary
+    exception, but one that `list(map(...))`, generators and generator-based context managers treat specially."""
+
+    def __init__(self, kind):
+        super().__init__(kind)
+        self.kind = kind
+
+
+class TokRich(Exception):
+    """An exception class whose constructor needs several arguments and whose text spans several lines and is not ASCII
+    (it cannot be re-created as type(e)(str(e)))."""
+
+    def __init__(self, kind, code, payload):
+        super().__init__(kind, code, payload)
+        self.kind, self.code, self.payload = kind, code, payload
+
+    def __str__(self):
+        return f"{self.kind} failed\n  code {self.code}\n  payload {self.payload!r} \u2620"
+
+
+FAULT_CLASSES = (TokFault, TokInterrupt, TokExit, TokStop, TokRich)
+
+
 def raise_fault(kind):
     fl = G.get("flavour")
+    if fl == "sysexit":
+        raise TokExit(kind)
+    if fl == "stopiter":
+        raise TokStop(kind)
+    if fl == "rich":
+        raise TokRich(kind, 17, {"a": [1.5, None]})
+    if fl == "multiline":
+        raise TokFault(kind, text=f"\n{kind} failed:\n  details on a third line\n")   # starts with an empty line
     raise (TokInterrupt(kind) if fl == "interrupt" else TokFault(kind, bare=(fl == "bare")))
 
 
@@ -201,8 +241,10 @@ def make_agent(script):
 def exn_code(e):
     if e is None:
         return 0
-    if isinstance(e, (TokFault, TokInterrupt)):
-        return {"model": 1, "loss": 2, "sampler": 3}[e.kind]
+    if isinstance(e, FAULT_CLASSES):
+        # an exception of an injected class that does not carry the injected kind (re-created by the code under test from its text)
+        # is "another exception" (5): the oracle then reports the injected fault as not propagated, with the failing input
+        return {"model": 1, "loss": 2, "sampler": 3}.get(e.kind, 5)
     if isinstance(e, ValueError):
         return 4
     return 5
@@ -235,6 +277,7 @@ def core_view(cal):
         "samplers": sampler_views(sch.samplers),
         "stopped": bool(getattr(sch, "_stopped", True)), "alive": bool(th is not None and th.is_alive()),
         "nextdraw": int(gen.integers(2**32 - 1)),
+        "series_shape": [int(x) for x in cal.series_samp.shape],
     }
 
 
@@ -289,6 +332,7 @@ def run_case(case, keep=False):
                 samplers=samplers, scheduler=scheduler if not case.get("both") else case_both_scheduler(case),
                 convergence_precision=cfg["prec"], verbose=cfg["verbose"],
                 saving_folder=str(folder) if cfg["saving"] else None, random_state=case["seed"], n_jobs=1,
+                sim_length=cfg.get("sim_length"),      # optional (round 4); absent = the length of the real data, as before
             )
     except Exception as e:  # noqa: BLE001
         obs["ctor_exn"] = exn_code(e)
@@ -322,14 +366,16 @@ def run_case(case, keep=False):
                     cal.set_scheduler(RoundRobinScheduler(new))
         except Exception as e:  # noqa: BLE001
             err = e
-        except TokInterrupt as e:
+        except (TokInterrupt, TokExit) as e:
             err = e
         v = core_view(cal)
         v["exn"] = exn_code(err)
         v["exc"] = None if err is None else f"{type(err).__name__}: {err}"
         v["returned"] = returned
         v["disk"] = disk_view(folder)
-        v["threads"] = sum(1 for t in threading.enumerate() if t is not threading.main_thread() and t.is_alive())
+        # G["ignore_threads"] (optional, round 4): threads of the harness itself (e.g. vcheck's wall-limit timer), alive before the case
+        v["threads"] = sum(1 for t in threading.enumerate() if t is not threading.main_thread() and t.is_alive()
+                           and t not in (G.get("ignore_threads") or ()))
         if agent is not None:
             v["nlearned"] = len(agent.learned)   # learn calls made by the time the operation returned
         if case.get("want_plot") and (folder / "scheduler_pickled.pickle").exists():
